@@ -1,12 +1,15 @@
 package harness
 
 import (
+	"context"
 	"fmt"
+	"io"
 	"strings"
 
 	"github.com/jhump/grpctunnel"
 	"github.com/jhump/grpctunnel/tunnelpb"
 	"google.golang.org/grpc/codes"
+	"google.golang.org/grpc/metadata"
 )
 
 // ---- reference classifier for client->server histories (SPEC-PEER, server role) -----------
@@ -130,7 +133,10 @@ type c2sFrame struct {
 
 func c09ClientAlphabet(tier string) []c2sFrame {
 	m := msgBytes(7, 0, 0, 3)
-	m10 := msgBytes(7, 0, 1, 10)
+	// a 10-byte message whose last 7 bytes are, on their own, a well-formed message too: an
+	// endpoint that wrongly accepts a continuation frame without an envelope then hands the
+	// application a message instead of tripping over garbage
+	m10 := []byte{0x0a, 0x08, 0x07, 0x0a, 0x05, 1, 2, 3, 4, 5}
 	big := make([]byte, 16384)
 	a := []c2sFrame{
 		{"N0B", func() *tunnelpb.ClientToServer { return fNew(0, "/verif.T/Bidi", 1, 65536, "s0") }},
@@ -322,6 +328,12 @@ func c09Scenarios(tier string) []*Scenario {
 			b = 1 // the peer may also speak before the endpoint has digested the previous frame
 		}
 		scs = append(scs, c09ServerScenario("C09", "c09/h1s/"+strings.Join(nm, ","), fr, true, Options{Level: "io", Bound: b}))
+		if len(h) <= 2 || h[0] <= 1 {
+			// the reverse role: every history of length <= 2, and the length-3 histories that
+			// start by opening a stream (the others differ from the forward role only in the
+			// wrapper around the carrier stream)
+			scs = append(scs, c09ReverseServerScenario("c09/h1r/"+strings.Join(nm, ","), fr, Options{Level: "io", Bound: 0}))
+		}
 	}
 	scs = append(scs, c09ClientScenarios(tier)...)
 	// "... or make it buffer more than one flow-control window of data per open stream": the
@@ -349,7 +361,88 @@ func c09Scenarios(tier string) []*Scenario {
 
 func init() {
 	register(&PropDef{ID: "C09", Level: "model_checking",
-		Rule:      "bounded-exhaustive frame histories: every sequence of length <= 3 (thorough: plus every length-4 history that first opens a stream) over a 26-frame client->server alphabet (new_stream with reused/negative/unknown ids, empty/malformed/unknown methods, unsupported revisions; message envelopes with wrong sizes; continuation frames; half-close; cancel; absurd window updates; frames with no kind; unknown ids) sent by a scripted raw client to the real tunnel server, and every sequence of length <= 3 over a 22-frame server->client alphabet sent by a scripted raw server to the real tunnel client running one RPC; each history run with the peer as slow as possible (every frame sent only when the endpoint is quiescent) and, for histories of length <= 2 (quick) / all (thorough), with every single deviation from that (a frame sent early, a thread delayed); each history judged against a reference classifier of the documented protocol (tunnel-level violation => tunnel ends with an error; stream-level => only that RPC fails; late frames ignored) plus no panic, no hang, bounded receiver windows and nothing left behind after the peer hangs up",
+		Rule:      "bounded-exhaustive frame histories: every sequence of length <= 3 (thorough: plus every length-4 history that first opens a stream) over a 26-frame client->server alphabet (new_stream with reused/negative/unknown ids, empty/malformed/unknown methods, unsupported revisions; message envelopes with wrong sizes; continuation frames; half-close; cancel; absurd window updates; frames with no kind; unknown ids) sent by a scripted raw client to the real tunnel server (forward tunnel; and, for the histories of length <= 2 and those that open a stream first, by a scripted network server to a real ReverseTunnelServer), and every sequence of length <= 3 over a 22-frame server->client alphabet sent by a scripted raw server to the real tunnel client running one RPC; each history run with the peer as slow as possible (every frame sent only when the endpoint is quiescent) and, for histories of length <= 2 (quick) / all (thorough), with every single deviation from that (a frame sent early, a thread delayed); each history judged against a reference classifier of the documented protocol (tunnel-level violation => tunnel ends with an error; stream-level => only that RPC fails; late frames ignored) plus no panic, no hang, bounded receiver windows and nothing left behind after the peer hangs up",
 		Globals:   []func(*Scenario, *World, *Exec) []Violation{ProtoMonitor},
 		Scenarios: c09Scenarios})
+}
+
+// ---- reverse roles: the same client->server histories, sent by a scripted network SERVER to a
+// real ReverseTunnelServer (which plays the tunnel-server role over the client side of the
+// carrier stream: different wrappers and a different tear-down path than the forward server).
+
+type rawRevServer struct {
+	tunnelpb.UnimplementedTunnelServiceServer
+	w      *World
+	frames []c2sFrame
+	rc     *RawClient
+}
+
+func (r *rawRevServer) OpenReverseTunnel(stream tunnelpb.TunnelService_OpenReverseTunnelServer) error {
+	w := r.w
+	_ = stream.SendHeader(metadata.Pairs("grpctunnel-negotiate", "on"))
+	if me := w.S.Me(); me != nil {
+		me.Low = 1 // a slow peer: it speaks only when the endpoint is quiescent
+	}
+	w.Go("rawrev-reader", false, func() {
+		for {
+			m, err := stream.Recv()
+			if err != nil {
+				return
+			}
+			r.rc.Recvd = append(r.rc.Recvd, m)
+			w.Log(Event{Actor: "rawclient", Op: "got", Detail: s2cKind(m, dataLenS(m)), Idx: int(m.StreamId)})
+		}
+	})
+	for _, f := range r.frames {
+		w.Point("raw:send")
+		if stream.Send(f.mk()) != nil {
+			break
+		}
+	}
+	w.Point("raw:hangup")
+	return nil
+}
+
+func c09ReverseServerScenario(name string, frames []c2sFrame, opt Options) *Scenario {
+	var names []string
+	for _, f := range frames {
+		names = append(names, f.name)
+	}
+	base := c09ServerScenario("C09", name, frames, true, opt)
+	base.Desc = fmt.Sprintf("scripted network server accepts a reverse tunnel from a real ReverseTunnelServer and sends it %v (as the tunnel client would), then hangs up", names)
+	base.Run = func(w *World) {
+		n := NewNet(w, "T")
+		n.Peer = DefaultPeer()
+		rc := &RawClient{W: w, Name: "T0"}
+		w.Vals["raw:T0:client"] = true
+		w.Vals["rc"] = rc
+		tunnelpb.RegisterTunnelServiceServer(n, &rawRevServer{w: w, frames: frames, rc: rc})
+		rs := grpctunnel.NewReverseTunnelServer(tunnelpb.NewTunnelServiceClient(n))
+		rs.RegisterService(&TestSvcDesc, &TestServer{W: w, Name: "rev"})
+		w.Scripts["*"] = &HandlerScript{ID: "any", Tag: 9, Ops: []HOp{{K: "recvall"}, {K: "return", Size: 3}}}
+		w.Scripts["s1"] = &HandlerScript{ID: "s1", Tag: 8, KeepGoing: true, Ops: []HOp{{K: "recvall"}, {K: "waitctx"}, {K: "return", Size: 3}}}
+		ctx, cancel := context.WithCancel(context.Background())
+		defer cancel()
+		serve := w.Go("serve:T", true, func() {
+			_, err := rs.Serve(ctx)
+			if err == nil {
+				err = io.EOF // the reference speaks of the forward server, whose clean end is EOF at the peer
+			}
+			rc.Final = err
+			rc.Done = true
+			em, ec := errFields(err)
+			w.Log(Event{Actor: "rawclient", Op: "tunnel-ended", Err: em, Code: ec})
+		})
+		w.Join(serve)
+		w.WaitUntil("carrier-done", func() bool {
+			for _, ms := range n.Streams {
+				if !ms.Finished {
+					return false
+				}
+			}
+			return true
+		})
+		w.Drain()
+	}
+	return base
 }
